@@ -375,6 +375,28 @@ func rulesC16(c *Ctx) {
 			}
 			return out
 		}
+		// the by-type cache answers for "the schema derived from T": it is neither consulted nor filled when the caller
+		// supplied a schema, in whatever form (a *jsonschema.Schema, a map, raw JSON) — decided by evaluating the branch
+		// conditions under "*sfield != nil"
+		{
+			provided := sg.ReachUnder(func(e ast.Expr) tri {
+				if x, trueWhenNil, isNil := NilTest(e); isNil && derefOf(x, sf) {
+					if trueWhenNil {
+						return triFalse
+					}
+					return triTrue
+				}
+				return triUnknown
+			}, nil)
+			nT := 0
+			for _, fn := range []*types.Func{getT, setT} {
+				for _, call := range ss.CallsIn(ss.Body, fn, false) {
+					nT++
+					c.Check(!provided[sg.VertexOf(call)], "setSchema:type-cache-only-without-a-provided-schema:"+fn.Name(), ss, call, "%s is unreachable when a schema was provided (*sfield != nil): a tool registered with its own schema in a non-pointer form must not be given the cached schema derived from its Go type", fn.Name())
+				}
+			}
+			c.Pin("by-type cache accesses in setSchema", nT, 2)
+		}
 		// every store through rfield
 		nR := 0
 		for _, w := range Writes(ss.Body, false) {
